@@ -309,6 +309,7 @@ class MQTTBaseProtocol(Protocol):
         self._pingReq.alarm = None
         self._pingReq.pdu   = self._pingReq.encode()    # reuses the same PDU over and over again
         self._connectSent   = False # only one CONNECT per network connection
+        self._lost          = False # the network connection is gone for good
         self.onDisconnection = None # callback to be invoked
 
  # ------------------------------------------------------------------------
@@ -529,6 +530,7 @@ class MQTTBaseProtocol(Protocol):
         # that an errback that publishes again is refused instead of being written
         # to the transport that has just been lost.
         self.state = self.IDLE
+        self._lost = True
         self.doConnectionLost(reason)
         # The disconnect callback is invoked in another reactor loop cycle
         # Otherwise, the reconnection attempt happens before connection cleanup
@@ -710,6 +712,10 @@ class MQTTBaseProtocol(Protocol):
             # [MQTT-3.1.0-2] a second CONNECT on the same network connection is a protocol 
             # violation. A new connection (and so a new protocol object) is needed.
             return defer.fail(MQTTStateError("Unexpected connect() operation", "CONNECT already sent"))
+        if self._lost:
+            # the transport has gone before connect() was ever called: nothing may be
+            # written to it any more. A new connection is needed here, too.
+            return defer.fail(MQTTStateError("Unexpected connect() operation", "connection lost"))
         try:
             self._checkConnect(request)
             pdu = request.encode()
